@@ -2,7 +2,7 @@
 (* Concrete sources, requests and stores for the FFI family. *)
 EXTENDS PolicyPool
 
-FBase == <<TRUE, "u2", TRUE, TRUE, TRUE, TRUE, "u1", 3, "u1">>
+FBase == <<TRUE, "u2", TRUE, TRUE, "g", TRUE, "u1", 3, "u1">>
 FEnv == EnvP(FBase)
 FStoreWith == FEnv.store
 FStoreWithout == [u \in {x \in DOMAIN FEnv.store : ~IsActionUid(x)} |-> FEnv.store[u]]
